@@ -150,7 +150,7 @@ def drive(rec, part, ms, quick):
         if m in (4, 16):
             for bound in range(0, 65):
                 lim = min(bound, 52)
-                dl = rng.choice([0, 3, -2])
+                dl = rng.choice([0, 3, -2, -900, -150, 150, 900])
                 ys = fill(y_values("to_znx64", lim, rng, max(n, 40)), n, rng)
                 xs = [y * 2.0 ** dl for y in ys]
                 for mask in (MASK_NONE, MASK_GENERIC):
@@ -167,7 +167,7 @@ def drive(rec, part, ms, quick):
                         continue
                     emit("to_znx64", "reim_to_znx64", m, [dbits(v) for v in xs], [to_words(int(v), 4) for v in R.i64], {"dl": dl, "bound": bound}, mask)
             for ovh in range(0, 53):
-                dl = rng.choice([0, 20, -3, 5])
+                dl = rng.choice([0, 20, -3, 5, -1000, -200, -97, -96, -95, 181, 182, 183, 300, 1000])       # every divisor 2^j is in the domain
                 ys = fill(y_values("to_tnx32", min(18, max(ovh, 1)), rng, max(n, 40)), n, rng)
                 xs = [y * 2.0 ** dl for y in ys]
                 for mask in (MASK_NONE, MASK_GENERIC):
@@ -237,7 +237,7 @@ def drive(rec, part, ms, quick):
         # ---------------- double -> torus double, every log2overhead
         ovhs = list(range(0, 49)) if not quick else sorted(set([0, 1, 17, 28, 29, 31, 32, 40, 48] + [rng.randrange(0, 49) for _ in range(3)]))
         for ovh in ovhs:
-            dl = rng.choice([0, 1, 12, -4])
+            dl = rng.choice([0, 1, 12, -4, -900, -130, 130, 900])
             ys = fill(y_values("to_tnx", ovh, rng, max(n, 30)), n, rng)
             d = 2.0 ** dl
             xs = [y * d for y in ys]
